@@ -14,6 +14,10 @@ pub fn run(ctx: &mut Ctx) {
     let scratch = Scratch::new();
     for case in ctx.cases(3_000, 200_000) {
         let mut rng = ctx.rng(case);
+        if rng.chance(1, 6) {
+            actor_case(ctx, case, &mut rng, &scratch);
+            continue;
+        }
         let file = rng.chance(1, 5);
         let backend = if file { Backend::File } else { Backend::Memory };
         let (mut store, mut path) = new_store(backend, &scratch);
@@ -227,5 +231,104 @@ pub fn run(ctx: &mut Ctx) {
         if ctx.want_sample() {
             ctx.sample(json!({"case": case, "trace": trace}));
         }
+    }
+}
+
+/// The same list behind the store actor (added after seeded change agent-C17-9): sessions register
+/// their peer through the `SyncHandle`, whether or not the document is open in the actor at that
+/// moment (a session that ends after the node left the document, a registration before the first
+/// open). Registrations through the handle are registrations like any other.
+fn actor_case(ctx: &mut Ctx, case: u64, rng: &mut crate::rng::Rng, scratch: &Scratch) {
+    use iroh_docs::actor::OpenOpts;
+    let file = rng.chance(1, 4);
+    let (mut store, _path) = new_store(if file { Backend::File } else { Backend::Memory }, scratch);
+    let docs = [namespace(1), namespace(2)];
+    for d in docs.iter() {
+        let cap = if rng.chance(1, 2) { Capability::Write(d.clone()) } else { Capability::Read(d.id()) };
+        store.import_namespace(cap).unwrap();
+    }
+    let unknown = namespace(3).id();
+    let h = crate::act::spawn(store);
+    let rt = crate::act::runtime(1);
+    let n_peers = rng.range(1, 8);
+    let peers: Vec<[u8; 32]> = (0..n_peers).map(|i| [i as u8 + 1; 32]).collect();
+    let mut model: [Vec<[u8; 32]>; 2] = [vec![], vec![]];
+    let mut open = [0usize; 2];
+    let mut trace = vec![];
+    let (mut evicted, mut refreshed, mut while_closed) = (false, false, false);
+    ctx.eval();
+    ctx.count("histories_through_the_store_actor", 1);
+    rt.block_on(async {
+        for _ in 0..rng.range(1, 30) {
+            let d = rng.below(2);
+            let id = docs[d].id();
+            match rng.below(10) {
+                0 => {
+                    let r = h.register_useful_peer(unknown, *rng.pick(&peers)).await;
+                    trace.push(format!("register for a document the store does not have -> {}", r.is_ok()));
+                    if r.is_ok() {
+                        ctx.violation(case, "registered-peer-for-unknown-document", json!({"through": "store actor", "trace": trace}));
+                        return;
+                    }
+                }
+                1 | 2 => {
+                    let sync = rng.chance(1, 2);
+                    let r = h.open(id, if sync { OpenOpts::default().sync() } else { OpenOpts::default() }).await;
+                    trace.push(format!("open doc{d} -> {}", r.is_ok()));
+                    if r.is_ok() {
+                        open[d] += 1;
+                    }
+                }
+                3 if open[d] > 0 => {
+                    let _ = h.close(id).await;
+                    open[d] -= 1;
+                    trace.push(format!("close doc{d} ({} handles left)", open[d]));
+                }
+                _ => {
+                    let p = *rng.pick(&peers);
+                    let r = h.register_useful_peer(id, p).await;
+                    trace.push(format!("register peer {:02x} for doc{d} ({}) -> {}", p[0], if open[d] > 0 { "open" } else { "not open" }, r.is_ok()));
+                    if r.is_err() {
+                        ctx.violation(case, "registration-for-a-held-document-refused", json!({"through": "store actor", "trace": trace}));
+                        return;
+                    }
+                    while_closed |= open[d] == 0;
+                    if let Some(i) = model[d].iter().position(|x| *x == p) {
+                        model[d].remove(i);
+                        refreshed = true;
+                    }
+                    model[d].insert(0, p);
+                    if model[d].len() > 5 {
+                        model[d].truncate(5);
+                        evicted = true;
+                    }
+                }
+            }
+            // the lists of both documents, read through the handle (which wants the document open)
+            for (dd, doc) in docs.iter().enumerate() {
+                let id = doc.id();
+                let opened_here = open[dd] == 0;
+                if opened_here && h.open(id, OpenOpts::default()).await.is_err() {
+                    ctx.violation(case, "held-document-does-not-open", json!({"trace": trace}));
+                    return;
+                }
+                let got: Vec<[u8; 32]> = h.get_sync_peers(id).await.ok().flatten().unwrap_or_default();
+                if opened_here {
+                    let _ = h.close(id).await;
+                }
+                if got != model[dd] {
+                    let sig = if got.len() > 5 { "more-than-five-peers" } else if got.len() != model[dd].len() { "wrong-peers-kept" } else { "wrong-order" };
+                    ctx.violation(case, sig, json!({"through": "store actor", "doc": dd, "got": got.iter().map(|p| p[0]).collect::<Vec<_>>(), "want": model[dd].iter().map(|p| p[0]).collect::<Vec<_>>(), "trace": trace}));
+                    return;
+                }
+            }
+        }
+    });
+    let _ = rt.block_on(h.shutdown());
+    if evicted && refreshed {
+        ctx.nontrivial(h64(trace.join("|").as_bytes()));
+    }
+    if while_closed {
+        ctx.count("registrations_for_documents_not_open_in_the_actor", 1);
     }
 }
